@@ -46,6 +46,11 @@ pub struct HostRun {
     pub history: Vec<String>,
 }
 
+/// orders created as inputs of a Promise.race carry `r: 1` in their payload
+fn payload_is_race_member(v: &JsValue) -> bool {
+    api::get_property(v, "r").map(|x| !x.is_undefined()).unwrap_or(false)
+}
+
 fn payload_fields(v: &JsValue) -> (Option<f64>, Option<String>) {
     let k = api::get_property(v, "k").ok().and_then(|x| x.as_number());
     let err = api::get_property(v, "err").ok().and_then(|x| x.as_str().map(|s| s.to_string()));
@@ -66,6 +71,14 @@ pub fn run(src: &str, policy: &Policy) -> HostRun {
     let mut answered: BTreeSet<u64> = BTreeSet::new();
     let mut cancelled_seen: BTreeSet<u64> = BTreeSet::new();
     let mut max_id: u64 = 0;
+    // Promise.race bookkeeping: tagged members, the member whose host promise was settled
+    // first (the winner), the members settled in the same host action, and whether the
+    // interpreter reported another Suspended after that (where cancellations become visible)
+    let mut race_members: BTreeSet<u64> = BTreeSet::new();
+    let mut race_immediate = false;
+    let mut race_winner: Option<u64> = None;
+    let mut settled_with_winner: BTreeSet<u64> = BTreeSet::new();
+    let mut suspended_after_win = false;
     // host promises: (order id, promise, settled)
     let mut promises: Vec<(u64, RuntimeValue, bool)> = Vec::new();
     let mut st = interp.prepare(src, None);
@@ -108,6 +121,15 @@ pub fn run(src: &str, policy: &Policy) -> HostRun {
                         format!("Complete reported while suspended_for_order={} wait_contexts={} pending_orders={} undelivered_responses={}", q.suspended_for_order, q.wait_contexts, q.pending_orders, q.order_responses),
                     ));
                 }
+                if let Some(w) = race_winner
+                    && !race_immediate
+                    && suspended_after_win
+                {
+                    let missing: Vec<&u64> = race_members.iter().filter(|id| **id != w && !settled_with_winner.contains(id) && !cancelled_seen.contains(id)).collect();
+                    if !missing.is_empty() {
+                        out.problems.push(("cancel-missing".into(), format!("the race was won by order {} but the losing orders {:?} were never reported as cancelled (cancelled: {:?})", w, missing, cancelled_seen)));
+                    }
+                }
                 let unanswered: Vec<&u64> = issued.keys().filter(|id| !answered.contains(id) && !cancelled_seen.contains(id)).collect();
                 if !unanswered.is_empty() {
                     out.problems.push(("complete-with-unanswered-order".into(), format!("Complete reported although orders {:?} were never answered", unanswered)));
@@ -140,9 +162,15 @@ pub fn run(src: &str, policy: &Policy) -> HostRun {
                     if f.0.is_none() && f.1.is_none() {
                         out.problems.push(("payload-damaged".into(), format!("order {} arrived without its k/err payload field", id)));
                     }
+                    if payload_is_race_member(o.payload.value()) {
+                        race_members.insert(id);
+                    }
                     issued.insert(id, f);
                     issue_order.push(id);
                     new_orders.push(id);
+                }
+                if race_winner.is_some() {
+                    suspended_after_win = true;
                 }
                 for c in &cancelled {
                     if !issued.contains_key(&c.0) {
@@ -150,6 +178,9 @@ pub fn run(src: &str, policy: &Policy) -> HostRun {
                     }
                     if !cancelled_seen.insert(c.0) {
                         out.problems.push(("cancel-reported-twice".into(), format!("cancellation of order {} reported twice", c.0)));
+                    }
+                    if race_winner == Some(c.0) && !race_immediate {
+                        out.problems.push(("cancel-of-winner".into(), format!("order {} won the race (its host promise was settled first) and is reported as cancelled", c.0)));
                     }
                 }
                 out.orders_issued = issued.len();
@@ -194,6 +225,9 @@ pub fn run(src: &str, policy: &Policy) -> HostRun {
                         let n = issue_order.iter().position(|x| x == id).unwrap_or(0);
                         let deferred = policy.deferred.get(n).copied().unwrap_or(policy.deferred_default);
                         let (k, err) = issued.get(id).cloned().unwrap_or((None, None));
+                        if !deferred && race_members.contains(id) {
+                            race_immediate = true; // a member answered with a plain value: no promise competes
+                        }
                         if deferred {
                             let p = api::create_order_promise(&mut interp, OrderId(*id));
                             responses.push(OrderResponse { id: OrderId(*id), result: Ok(RuntimeValue::unguarded(p.value().clone())) });
@@ -227,6 +261,12 @@ pub fn run(src: &str, policy: &Policy) -> HostRun {
                         _ => rng.shuffle(&mut order),
                     }
                     let take = if policy.settle_batch { order.len() } else { 1 };
+                    if race_winner.is_none()
+                        && let Some(&first) = order.iter().take(take).find(|pi| race_members.contains(&promises[**pi].0))
+                    {
+                        race_winner = Some(promises[first].0);
+                        settled_with_winner = order.iter().take(take).map(|pi| promises[*pi].0).collect();
+                    }
                     for &pi in order.iter().take(take) {
                         let id = promises[pi].0;
                         let (k, err) = issued.get(&id).cloned().unwrap_or((None, None));
